@@ -504,6 +504,30 @@ func (s *src) plantBody() {
 	s.ln("return n")
 }
 
+// hugeBody: more than 5000 basic blocks (the fingerprinter's size guard), nothing else special.
+func (s *src) hugeBody() {
+	s.ln("n := len(p)")
+	for i := 0; i < 2600; i++ {
+		s.ln("if n == %d {", i+7)
+		s.ln("\tn += %d", 1+i%5)
+		s.ln("}")
+	}
+	s.ln("return n")
+}
+
+// sigHugeSource: a second indexed function, beyond the size guard.
+func sigHugeSource() string {
+	s := &src{file: &FileRec{}}
+	s.ln("package sighuge")
+	s.ln("")
+	s.ln("func EvilHuge(p string) int {")
+	s.ind++
+	s.hugeBody()
+	s.ind--
+	s.ln("}")
+	return s.b.String()
+}
+
 // sigSource is the file indexed into the signature database; its function body is plantBody
 // (no imports: loading a package that imports the standard library costs ~0.5 s per file).
 func sigSource() string {
@@ -535,6 +559,17 @@ func (s *src) plant(kind string) {
 		fr := s.fn("func", "top", true, "func %s(p string) int {", host)
 		s.ind++
 		s.plantBody()
+		s.ind--
+		s.ln("}")
+		s.ln("")
+		s.file.Plants = append(s.file.Plants, Plant{Host: host, Kind: kind, Rel: s.file.Rel, Line: fr.Line})
+	case "decl-oversized":
+		// the body of the second indexed signature: a function beyond the fingerprinter's size
+		// guard still has a body, so it is still scanned
+		host := fmt.Sprintf("PlantHuge%dZ", id)
+		fr := s.fn("func", "top", true, "func %s(p string) int {", host)
+		s.ind++
+		s.hugeBody()
 		s.ind--
 		s.ln("}")
 		s.ln("")
@@ -1034,6 +1069,9 @@ func genTree(seed int64, index int, scratch string) *Tree {
 			}
 			if fi == nf-1 && di%2 == 0 && plantAt < len(plantKinds) {
 				o.plants = []string{plantKinds[plantAt%len(plantKinds)]}
+				if plantAt == 0 && index%8 == 0 {
+					o.plants = append(o.plants, "decl-oversized")
+				}
 				plantAt++
 			}
 			if fi == 0 && len(importable) > 0 && r.Intn(2) == 0 {
